@@ -716,10 +716,11 @@ class Interp:
             return A << (B & (bits - 1))
         if op in ('Shr', 'ShrUnchecked'):
             return (A >> (B & (bits - 1))) if signed else z3.LShR(A, B & (bits - 1))
+        same = A is B or (isinstance(A, z3.ExprRef) and isinstance(B, z3.ExprRef) and A.eq(B))
         if op == 'Eq':
-            return A == B
+            return True if same else A == B
         if op == 'Ne':
-            return A != B
+            return False if same else A != B
         if op == 'Lt':
             return (A < B) if signed else z3.ULT(A, B)
         if op == 'Le':
